@@ -61,6 +61,17 @@ func alphaParams(t int) []sym {
 	return a
 }
 
+// alphaParamsQ adds the parameter-sets-only access unit (H264 / H265).
+func alphaParamsQ(cfg muxCfg) []sym {
+	t := cfg.leading()
+	a := alphaParams(t)
+	// (H264 only: the muxer drops such units explicitly; what becomes of them for H265 is not specified)
+	if k := cfg.Tracks[t].Kind; k == "h264" || k == "h264b" {
+		a = append(a, sym{T: t, D: "f", K: "Q"})
+	}
+	return a
+}
+
 // alphaReorder: H264 with reordered frames ("M" is written before the "b" frame that is displayed ahead of it).
 func alphaReorder(t int) []sym {
 	var a []sym
@@ -128,7 +139,7 @@ func (g e1Grid) alphabet() []sym {
 	case "timing":
 		return alphaTiming(g.cfg.leading())
 	case "params":
-		return alphaParams(g.cfg.leading())
+		return alphaParamsQ(g.cfg)
 	case "inter":
 		return alphaInterleave(g.cfg)
 	case "reorder":
@@ -221,6 +232,15 @@ func e1Scens(prop, tier string) []e1Scen {
 				sc3 := sc
 				sc3.Start, sc3.Depth, sc3.Name = st, d-1, name+"-tree-negative-start"
 				out = append(out, sc3)
+			}
+		}
+		// a stream that has been running for 28.5 hours: the time stamps pass 2^63 ns / 1e9 ticks within the word
+		// (directly, and with the +10 s of the fMP4 variants)
+		if g.alpha == "timing" || g.alpha == "params" {
+			for _, st := range []int64{102_481_000, 102_471_400} {
+				sc4 := sc
+				sc4.Start, sc4.Depth, sc4.Name = st, d-1, name+"-tree-long-running"
+				out = append(out, sc4)
 			}
 		}
 		// periodic words: the window slides many times
